@@ -16,6 +16,12 @@ Three kinds of cases:
   builder  an arbitrary `with_arg` sequence on a real `MethodBuilder` (ordering
            checks, implicit **kwargs, build-time compatibility check), then calls.
   bind     `pyBind` against `inspect.Signature.bind` and a real `def`.
+  hinit / hupd   the constructor / `update` of the target class of a class HIERARCHY (Model/C17Impl.lean).
+  reg      WHICH generated method a name resolves to (Model/C17Reg.lean): a world of classes (lazy / immediate
+           bootstrap, subclasses re-declaring attributes with another nested type, plain classes, hand-written
+           helpers) and a history of class statements, bootstraps and lookups (class, instance, super()) in some
+           order; per lookup: provider class, descriptor / built function / hand-written, the class the method was
+           built for, the classes bootstrapped so far, the advertised signature; then calls with a spy.
 """
 import inspect
 import itertools
@@ -44,6 +50,14 @@ REQUIRED_THEOREMS = [
     "SpecVerif.Props.C17.init_overflow_collects",
     "SpecVerif.Props.C17.constructor_keywords_reach",
     "SpecVerif.Props.C17.direct_bases_only_witness",
+    # which generated method a name resolves to (Model/C17Reg.lean): registration, lazy bootstrap, dissolving descriptors
+    "SpecVerif.Props.C17.generated_entry_sits_on_its_class",
+    "SpecVerif.Props.C17.lookup_history_independent",
+    "SpecVerif.Props.C17.lookup_does_not_change_resolution",
+    "SpecVerif.Props.C17.bootstrapped_class_resolves_to_own",
+    "SpecVerif.Props.C17.hand_written_wins",
+    "SpecVerif.Props.C17.lookup_yields_own_method",
+    "SpecVerif.Props.C17.unbootstrapped_subclass_witness",
 ]
 RULE = (
     "method cases = (class of the generated family: scalar / nested-spec / List,Dict,Set of scalars and of spec classes, "
@@ -58,7 +72,15 @@ RULE = (
     "(constructor: every advertised keyword alone with a truthy / falsy / MISSING value, all, one per owning class, pairs, "
     "keywords outside the signature; update: {no replacement, replacement by position, by keyword, MISSING, EMPTY, UNCHANGED} x "
     "{_inplace, _if on/off} x {no keyword, each keyword truthy/falsy, all, pairs, MISSING}, on first- and second-generation "
-    "receivers), every call made twice. "
+    "receivers), every call made twice; "
+    "reg cases = (world of classes: nested spec types with a subtype, lazily or immediately decorated; 2..5 host levels, plain "
+    "classes in between, several bases; subclasses re-declaring an attribute with ANOTHER nested type, adding attributes, "
+    "overriding defaults only, adding nothing; hand-written helpers in spec and plain classes) x (history of events: class "
+    "statements, bootstraps, lookups on the class / an instance / through super() of EVERY generated name, in systematic orders "
+    "— minimal parent-used-then-subclass pairs, parents first, children first, each class used before its subclass is defined, "
+    "class-level lookups before any bootstrap in shuffled name order, super() lookups — and random interleavings; every history "
+    "ends with every name looked up on an instance of every class) x calls {each keyword the class's own configuration "
+    "advertises, a pair, keywords the other classes advertise under the same name, an unknown one}. "
     "A call is non-trivial when it is rejected, or accepted with at least one caller-supplied value reaching the "
     "implementation; distinct = distinct (advertised signature, call shape, outcome)."
 )
@@ -69,6 +91,8 @@ ASSUMPTIONS = [
     "behaviour model (Model/C17Impl.lean): values given to attribute keywords type-check (the implementations' own type errors are C03/C15), "
     "the values EMPTY/UNCHANGED are not given to the constructor, None is not given as _new_value, hierarchies are well-formed (hierOKB, "
     "evaluated on every described hierarchy and compared with the real metadata)",
+    "registration model (Model/C17Reg.lean): no attribute is called like a generated helper; classes used as attribute types are "
+    "defined before the class using them (no forward references / cyclic annotations); `__init__` is not hand-written",
     "well-formed classes: the KEY attribute is not called `self` or `kwargs` (either makes building the constructor fail loudly with ValueError) and no attribute is private; attributes called `implementation` / `validate_attrs` are ordinary since /repo 0ac9e19 (corpus cases key_named_*.json)",
 ]
 TRUSTED_EXTRA = [
@@ -618,6 +642,8 @@ def model_lines(case):
         return hinit_model_lines(case)
     if k == "hupd":
         return hupd_model_lines(case)
+    if k == "reg":
+        return reg_model_lines(case)
     raise ValueError(k)
 
 
@@ -761,6 +787,8 @@ def real_lines(case):
         return hinit_real_lines(case)
     if k == "hupd":
         return hupd_real_lines(case)
+    if k == "reg":
+        return reg_real_lines(case)
     raise ValueError(k)
 
 
@@ -918,6 +946,8 @@ def oracle(case):
         return hinit_oracle(case)
     if case["kind"] == "hupd":
         return hupd_oracle(case)
+    if case["kind"] == "reg":
+        return reg_oracle(case)
     P = inspect.Parameter
     MISSING = _sc["MISSING"]
     viol = []
@@ -2129,6 +2159,679 @@ def _dedup(calls):
 
 
 # ---------------------------------------------------------------------------
+# WHICH generated method a name resolves to: class definitions (lazy or immediate bootstrap), bootstraps and
+# lookups (class, instance, super()) in ANY order; subclasses re-declaring an attribute with another nested
+# type, adding attributes, overriding defaults, plain classes in between, several bases, hand-written methods.
+# (Model/C17Reg.lean; theorems `lookup_history_independent`, `bootstrapped_class_resolves_to_own`, …)
+# ---------------------------------------------------------------------------
+# reg case = {"kind": "reg", "classes": [rclass...] (definition order), "events": [event...]}
+# rclass   = hclass (name, bases, spec, key=None, overflow, attrs, overrides) + {"lazy": bool, "hand": [patterns]}
+#            attr types: int str | nested:<Class> | list:int list:nested:<Class> | dict:… | set:…   (Class defined earlier)
+# event    = ["def", C] | ["boot", C] | ["get", C, pattern, calls] | ["iget", C, pattern, calls]
+#          | ["sget", C, K, pattern, calls]          calls = [[npos, [keyword names]], …] made on the method found
+
+REG_TOPLEVEL = [("update", "update"), ("transform", "transform"), ("reset", "reset")]
+REG_EAGER = ["__init__", "__spec_class_init__"]
+
+
+def reg_h(case):
+    """The classes of a reg case as a hierarchy description (`h_meta`, `h_mro` work on it)."""
+    return {"classes": case["classes"], "target": case["classes"][-1]["name"]}
+
+
+def reg_type_class(t):
+    """name of the spec class whose attributes a helper of an attribute of type `t` exposes (or None)"""
+    parts = t.split(":")
+    if parts[0] == "nested":
+        return parts[1]
+    if parts[0] in ELEMENT_KINDS and len(parts) == 3 and parts[1] == "nested":
+        return parts[2]
+    return None
+
+
+def reg_attr_methods(name, t):
+    """[(pattern, model kind, exposes the nested class?)] of the helpers generated for an attribute"""
+    parts = t.split(":")
+    out = [(f"with_{name}", "withAttr", parts[0] == "nested"), (f"update_{name}", "updateAttr", parts[0] == "nested"),
+           (f"transform_{name}", "transformAttr", parts[0] == "nested"), (f"reset_{name}", "resetAttr", False)]
+    if parts[0] in ELEMENT_KINDS:
+        for prefix, kind in zip(("with_", "update_", "transform_", "without_"), ELEMENT_KINDS[parts[0]]):
+            out.append((f"{prefix}<item:{name}>", kind, prefix != "without_"))
+    return out
+
+
+def reg_methods(case, cname):
+    """[(pattern, model kind, key token, nested token, look)] of every method the bootstrap of spec class `cname`
+    generates — from the DESCRIPTION: the constructor, the toplevel helpers, the helpers of the attributes the class
+    OWNS. look = the nested spec type whose metadata is read when the method is BUILT (a lazily decorated one is
+    bootstrapped by that), or None."""
+    h = reg_h(case)
+    m = h_meta(h, cname)
+    kt, nt = h_ctor_tokens(h, cname)
+    out = [(n, "init", kt, nt, None) for n in REG_EAGER]
+    out += [("update", "update", "-", nt, None), ("transform", "transform", "-", nt, None), ("reset", "reset", "-", "-", None)]
+    for n, a in m["attrs"].items():
+        if a["owner"] != cname:
+            continue
+        t = a["type"] if a["type"] != "dict" else "dict:any"
+        tc = reg_type_class(t)
+        for pattern, kind, exposes in reg_attr_methods(n, t):
+            tok = h_ctor_tokens(h, tc)[1] if (tc and exposes) else "-"
+            # (every element helper — `without_<item>` too — reads the item type's metadata for its key/index annotation)
+            out.append((pattern, kind, "-", tok, tc if (tc and (exposes or "<item:" in pattern)) else None))
+    return out
+
+
+def reg_universe(case):
+    """every method name generated for some class of the case (patterns), in a stable order"""
+    out = []
+    for c in case["classes"]:
+        if c["spec"]:
+            for pattern, _, _, _, _ in reg_methods(case, c["name"]):
+                if pattern not in out:
+                    out.append(pattern)
+    return out
+
+
+def reg_ids(case):
+    return {c["name"]: i for i, c in enumerate(case["classes"])}
+
+
+def reg_event_lines(case, ev):
+    ids = reg_ids(case)
+    k = ev[0]
+    if k == "def":
+        return [f"rdef {ids[ev[1]]}"]
+    if k == "boot":
+        return [f"rboot {ids[ev[1]]}"]
+    if k == "get":
+        return [f"rget {ids[ev[1]]} {ev[2]}"] + [call_line(c) for c in ev[3]]
+    if k == "iget":
+        return [f"riget {ids[ev[1]]} {ev[2]}"] + [call_line(c) for c in ev[3]]
+    if k == "sget":
+        return [f"rsget {ids[ev[1]]} {ids[ev[2]]} {ev[3]}"] + [call_line(c) for c in ev[4]]
+    raise ValueError(k)
+
+
+def reg_model_lines(case):
+    h = reg_h(case)
+    ids = reg_ids(case)
+    lines = ["rnew", "impl args/vp/0,kwargs/vk/0"]
+    for c in case["classes"]:
+        mro = [ids[k] for k in h_mro(h, c["name"])]
+        meths = ([f"{p}|{kind}|{kt}|{nt}|{ids[look] if look else '-'}" for p, kind, kt, nt, look in reg_methods(case, c["name"])]
+                 if c["spec"] else [])
+        lines.append(" ".join([
+            "rcls", str(ids[c["name"]]), "1" if c["spec"] else "0", "1" if c.get("lazy") else "0",
+            ",".join(str(ids[b]) for b in c["bases"]) or "-", ",".join(map(str, mro)),
+            ",".join(c.get("hand", [])) or "-", (",".join(REG_EAGER) if c["spec"] else "-")] + meths))
+    for ev in case["events"]:
+        lines += reg_event_lines(case, ev)
+    return lines
+
+
+class RegEnv:
+    """The real classes of a reg case, created event by event (never cached: lookups change the classes)."""
+
+    def __init__(self, case):
+        self.case = case
+        self.idx = {c["name"]: c for c in case["classes"]}
+        self.order = [c["name"] for c in case["classes"]]
+        self.ids = reg_ids(case)
+        self.classes = {}
+        self.by_obj = {}
+
+    def pytype(self, t):
+        from typing import Any, Dict, List, Set
+
+        parts = t.split(":")
+        if parts[0] == "int":
+            return int
+        if parts[0] == "str":
+            return str
+        if parts[0] == "any":
+            return Any
+        if parts[0] == "nested":
+            return self.classes[parts[1]]
+        inner = self.pytype(":".join(parts[1:]))
+        return {"list": List[inner], "dict": Dict[str, inner], "set": Set[inner]}[parts[0]]
+
+    def define(self, cname):
+        if cname in self.classes:
+            return
+        c = self.idx[cname]
+        ns = {}
+        if c["spec"]:
+            ns["__annotations__"] = {}
+            for a in c["attrs"]:
+                ns["__annotations__"][a["name"]] = self.pytype(a["type"])
+                if not a["init"]:
+                    ns[a["name"]] = _sc["Attr"](default=3, init=False)
+                elif a["default"]:
+                    ns[a["name"]] = {"int": 7, "str": "d"}[a["type"]]
+        for n in c["overrides"]:
+            ns[n] = 8
+        for pattern in c.get("hand", []):
+            ns[pattern] = make_hand(cname, pattern)
+        cls = type(cname, tuple(self.classes[b] for b in c["bases"]), ns)
+        self.classes[cname] = cls
+        self.by_obj[cls] = cname
+        if c["spec"]:
+            opts = {"bootstrap": not c.get("lazy")}
+            if c.get("overflow"):
+                opts["init_overflow_attr"] = c["overflow"]
+            _sc["spec_class"](**opts)(cls)
+
+    def booted(self):
+        from spec_classes.spec_class import SpecClassMetadata
+
+        out = [str(self.ids[n]) for n in self.order
+               if n in self.classes and isinstance(self.classes[n].__dict__.get("__spec_class__"), SpecClassMetadata)]
+        return ",".join(out) or "-"
+
+    def cid(self, cls):
+        return str(self.ids[self.by_obj[cls]]) if cls in self.by_obj else "?"
+
+    def real_name(self, pattern):
+        """`with_<item:kids>` -> the name the library gives the element helper (singular of the attribute)"""
+        if "<item:" not in pattern:
+            return pattern
+        prefix, rest = pattern.split("<item:")
+        attr = rest[:-1]
+        for n in self.order:
+            cls = self.classes.get(n)
+            meta = cls.__dict__.get("__spec_class__") if cls is not None else None
+            attrs = getattr(meta, "attrs", None)
+            if isinstance(attrs, dict) and attr in attrs and attrs[attr].owner is cls:
+                return prefix + attrs[attr].item_name
+        return prefix + REG_SINGULAR.get(attr, attr + "_item")
+
+    def static_lookup(self, search, name):
+        for k in search:
+            if name in k.__dict__:
+                return k, k.__dict__[name]
+        return None, None
+
+    def classify(self, entry):
+        """(desc|fn|hand|other, the class the method is generated for)"""
+        from spec_classes.methods.base import MethodDescriptor
+
+        if isinstance(entry, MethodDescriptor):
+            return "desc", entry.spec_cls
+        if getattr(entry, "__verif_hand__", None):
+            return "hand", None
+        if callable(entry) and hasattr(entry, "__globals__") and any(k in entry.__globals__ for k in IMPL_KEYS):
+            return "fn", built_for(entry)
+        return "other", None
+
+    def access(self, ev):
+        """Performs a get / iget / sget event. Returns (protocol line, function found or None, receiver or None)."""
+        kind, cname = ev[0], ev[1]
+        C = self.classes[cname]
+        pattern = ev[3] if kind == "sget" else ev[2]
+        inst = None
+        if kind != "get":
+            inst = C()
+        name = self.real_name(pattern)
+        search = [k for k in C.__mro__ if k is not object]
+        if kind == "sget":
+            K = self.classes[ev[2]]
+            search = search[search.index(K) + 1:]
+        prov, entry = self.static_lookup(search, name)
+        if prov is None:
+            # no class of the world provides the name (for `__init__` Python would go on to `object`)
+            return f"boot {self.booted()} ;; err AttributeError", None, inst
+        was, _ = self.classify(entry)
+        got = getattr(super(K, inst) if kind == "sget" else (C if kind == "get" else inst), name)
+        fn = getattr(got, "__func__", got)
+        pre = f"boot {self.booted()} ;; "   # (building the method may bootstrap the nested type it exposes)
+        nprov, nentry = self.static_lookup(search, name)
+        now, _ = self.classify(nentry)
+        after = f"np={self.cid(nprov)} now={now}"
+        if was == "hand":
+            ok = getattr(fn, "__verif_hand__", None) == getattr(entry, "__verif_hand__", None)
+            return pre + f"get p={self.cid(prov)} was=hand for=- {after} ;; adv " + ("hand" if ok else "not-the-hand-written"), None, inst
+        if not (callable(fn) and hasattr(fn, "__globals__") and any(k in fn.__globals__ for k in IMPL_KEYS)):
+            return pre + f"get p={self.cid(prov)} was={was} for=? {after} ;; adv ?", None, inst
+        owner = built_for(fn)
+        return (pre + f"get p={self.cid(prov)} was={was} for={self.cid(owner)} {after} ;; adv {sig_token(inspect.signature(fn))}",
+                fn, inst)
+
+
+REG_SINGULAR = {"kids": "kid", "nodes": "node", "table": "table_item", "tags": "tag"}
+
+
+def make_hand(cname, pattern):
+    def hand(self, *args, **kwargs):
+        return ("hand-written", cname, pattern)
+
+    hand.__verif_hand__ = (cname, pattern)
+    hand.__name__ = hand.__qualname__ = "hand_" + cname
+    return hand
+
+
+def built_for(fn):
+    """The class a generated method was built for, read off the function: the generator binds the class (constructor)
+    or the owning class's `Attr` (attribute helpers) into the implementation; toplevel helpers show the class as the
+    annotation of `_new_value` (`update`), the return annotation (`reset`), in the first line of the text (`transform`)."""
+    import functools
+    import re
+
+    impl = fn.__globals__[impl_key(fn)]
+    if isinstance(impl, functools.partial) and impl.args:
+        a0 = impl.args[0]
+        return a0 if isinstance(a0, type) else getattr(a0, "owner", None)
+    known = list(_REG_CURRENT[0].classes.values()) if _REG_CURRENT[0] else []
+    sig = inspect.signature(fn)
+    p = sig.parameters.get("_new_value")
+    if p is not None and any(p.annotation is k for k in known):
+        return p.annotation
+    if any(sig.return_annotation is k for k in known):
+        return sig.return_annotation
+    m = re.search(r"`(\w+)`", fn.__doc__ or "")
+    if m:
+        for k in known:
+            if k.__name__ == m.group(1):
+                return k
+    return None
+
+
+_REG_CURRENT = [None]
+
+
+def reg_spied_call(fn, c, recv, impl_sig):
+    pos, kw, labels = make_call(c, recv)
+    defaults = {p.name: p.default for p in inspect.signature(fn).parameters.values()
+                if p.default is not inspect.Parameter.empty}
+    err, spy = run_spied(fn, pos, kw)
+    if err is not None:
+        return "err " + err + ("" if not spy.calls else " after-impl")
+    if len(spy.calls) != 1:
+        return f"ok but implementation entered {len(spy.calls)} times"
+    args, kwargs = spy.calls[0]
+    try:
+        impl_sig.bind(*args, **kwargs)
+        iok = "ok"
+    except TypeError:
+        iok = "err"
+    return "ok " + show_recorded(args, kwargs, labels, defaults) + " ;; impl " + iok
+
+
+def reg_real_lines(case):
+    env = RegEnv(case)
+    _REG_CURRENT[0] = env
+    out = ["rnew", "impl"] + ["rcls"] * len(case["classes"])
+    for ev in case["events"]:
+        k = ev[0]
+        if k == "def":
+            env.define(ev[1])
+            out.append("def " + env.booted())
+        elif k == "boot":
+            env.classes[ev[1]].__spec_class__  # noqa: B018  (looking at it bootstraps the class)
+            out.append("boot " + env.booted())
+        else:
+            line, fn, inst = env.access(ev)
+            out.append(line)
+            for c in ev[-1]:
+                if fn is None or inst is None:
+                    out.append("unbuilt")
+                else:
+                    out.append(reg_spied_call(fn, c, inst, inspect.signature(fn.__globals__[impl_key(fn)])))
+    return out
+
+
+def reg_declared_type(case, cname, attr):
+    """type token of `attr` as declared for class `cname` (nearest annotation along its MRO), from the description"""
+    h = reg_h(case)
+    idx = h_idx(h)
+    for k in h_mro(h, cname):
+        for a in idx[k]["attrs"]:
+            if a["name"] == attr and idx[k]["spec"]:
+                return a["type"]
+    return None
+
+
+def reg_pattern_attr(pattern):
+    """(attribute name, is element helper, prefix) of an attribute-helper pattern; None for toplevel / constructor"""
+    if pattern in ("update", "transform", "reset") or pattern in REG_EAGER:
+        return None
+    if "<item:" in pattern:
+        prefix, rest = pattern.split("<item:")
+        return rest[:-1], True, prefix
+    prefix, attr = pattern.split("_", 1)
+    return attr, False, prefix + "_"
+
+
+def reg_oracle(case):
+    """Property text, on the real classes after the same history: the method an INSTANCE of class C finds under a
+    generated name (a) has nested keywords that are one-to-one the init-enabled attributes of the nested spec class of
+    the attribute's type AS DECLARED FOR C (of C itself for the constructor / update / transform), (b) accepts each of
+    them and hands the value to the implementation, rejects names outside its signature before the implementation is
+    entered, (c) `with_<attr>(kw=v)` / `update(kw=v)` produce an object holding v."""
+    P = inspect.Parameter
+    env = RegEnv(case)
+    _REG_CURRENT[0] = env
+    h = reg_h(case)
+    viol = []
+    seen = set()
+    for ev in case["events"]:
+        k = ev[0]
+        if k == "def":
+            try:
+                env.define(ev[1])
+            except Exception as e:  # noqa: BLE001
+                return [f"class {ev[1]} cannot be defined: {type(e).__name__}: {e}"]
+            continue
+        if k == "boot":
+            env.classes[ev[1]].__spec_class__  # noqa: B018
+            continue
+        if k != "iget":
+            try:
+                env.access(ev)
+            except Exception as e:  # noqa: BLE001
+                viol.append(f"{ev[:3]}: raised {type(e).__name__}: {e}")
+            continue
+        cname, pattern = ev[1], ev[2]
+        C = env.classes[cname]
+        name = env.real_name(pattern)
+        try:
+            inst = C()
+            bound = getattr(inst, name)
+        except AttributeError:
+            continue
+        except Exception as e:  # noqa: BLE001
+            viol.append(f"{cname}().{name}: raised {type(e).__name__}: {e}")
+            continue
+        fn = getattr(bound, "__func__", bound)
+        if getattr(fn, "__verif_hand__", None) or not hasattr(fn, "__globals__") or not any(
+                k2 in fn.__globals__ for k2 in IMPL_KEYS):
+            continue
+        history = " after " + " ".join("/".join(map(str, e[:-1] if isinstance(e[-1], list) else e))
+                                       for e in case["events"][: case["events"].index(ev)][-6:])
+        adv = inspect.signature(fn)
+        compiled_names = {p.name for p in code_signature(fn)}
+        nested_kw = [p.name for p in adv.parameters.values() if p.kind is P.KEYWORD_ONLY and p.name not in compiled_names]
+        pa = reg_pattern_attr(pattern)
+        if pa is None:
+            ncls = C if pattern != "reset" else None
+            declared = cname
+        else:
+            attr, is_item, prefix = pa
+            t = reg_declared_type(case, cname, attr)
+            tc = reg_type_class(t) if t else None
+            exposes = tc is not None and prefix not in ("reset_", "without_") and (is_item or t.startswith("nested"))
+            ncls = env.classes.get(tc) if exposes else None
+            declared = tc
+        expected = []
+        if ncls is not None:
+            meta = ncls.__spec_class__
+            expected = [a for a, sp in meta.attrs.items() if sp.init and a != meta.init_overflow_attr and a not in compiled_names]
+        if sorted(nested_kw) != sorted(expected):
+            viol.append(f"{cname}().{name}{adv}: nested keywords {nested_kw}, but the init-enabled attributes of "
+                        f"{declared} (the type declared for {cname}) are {expected}{history}")
+        recv = inst
+        for c in ev[-1]:
+            pos, kw, _ = make_call(c, recv)
+            try:
+                ba = adv.bind(*pos, **kw)
+                exp_ok = True
+            except TypeError:
+                ba, exp_ok = None, False
+            before = snapshot(recv)
+            err, spy = run_spied(fn, pos, kw)
+            if err is not None and err != "TypeError":
+                viol.append(f"{cname}().{name}{c}: raised {err}")
+            elif exp_ok and err is not None:
+                viol.append(f"{cname}().{name}{c}: the advertised signature {adv} accepts the call but the method raised TypeError")
+            elif not exp_ok and err is None:
+                viol.append(f"{cname}().{name}{c}: not accepted by the advertised signature {adv} but the method accepted it")
+            elif err is not None and (spy.calls or snapshot(recv) != before):
+                viol.append(f"{cname}().{name}{c}: TypeError after the implementation was entered / the receiver changed")
+            elif err is None and len(spy.calls) == 1:
+                arrived = spy.calls[0][1]
+                for k2, v2 in kw.items():
+                    if k2 in adv.parameters and k2 != "self" and arrived.get(k2, None) is not v2:
+                        viol.append(f"{cname}().{name}{c}: the value given for {k2} did not reach the implementation")
+        # (c) behaviour, once per (class, method): each nested keyword the DECLARED type calls for is accepted and stored
+        if (cname, pattern) in seen or len(viol) > 6:
+            continue
+        seen.add((cname, pattern))
+        BEHAVIOUR["checks"] += 1
+        if pattern == "update":
+            for a, sp in C.__spec_class__.attrs.items():
+                if sp.init and sp.type is int and a != C.__spec_class__.init_overflow_attr:
+                    try:
+                        r = C().update(**{a: 0})
+                        if not same(getattr(r, a, "<missing>"), 0):
+                            viol.append(f"{cname}().update({a}=0): {a} is {getattr(r, a, '<missing>')!r}{history}")
+                    except Exception as e:  # noqa: BLE001
+                        viol.append(f"{cname}().update({a}=0): raised {type(e).__name__}: {e}{history}")
+        elif pa is not None and pa[2] == "with_" and not pa[1] and ncls is not None:
+            for a, sp in ncls.__spec_class__.attrs.items():
+                if sp.init and sp.type is int and a != ncls.__spec_class__.init_overflow_attr:
+                    try:
+                        r = getattr(C(), name)(**{a: 0})
+                        v = getattr(r, pa[0], None)
+                        if type(v) is not ncls or not same(getattr(v, a, "<missing>"), 0):
+                            viol.append(f"{cname}().{name}({a}=0): {pa[0]} is {v!r}, not a {declared} holding {a}=0{history}")
+                    except Exception as e:  # noqa: BLE001
+                        viol.append(f"{cname}().{name}({a}=0): raised {type(e).__name__}: {e}{history}")
+    return viol[:8]
+
+
+# --- worlds and histories -----------------------------------------------------------------------------------
+
+
+def r_class(name, bases=(), spec=True, lazy=True, attrs=(), overrides=(), hand=(), overflow=None):
+    c = h_class(name, bases, spec, None, overflow, attrs, overrides)
+    c["lazy"] = bool(lazy) if spec else False
+    c["hand"] = list(hand)
+    return c
+
+
+def fixed_reg_worlds():
+    A, C = h_attr, r_class
+    child = C("Child", lazy=False, attrs=[A("a"), A("ghost", init=False)])
+    subchild = C("SubChild", ["Child"], lazy=False, attrs=[A("extra")])
+    lchild = C("Child", lazy=True, attrs=[A("a"), A("ghost", init=False)])       # (lazily decorated nested types:
+    lsubchild = C("SubChild", ["Child"], lazy=True, attrs=[A("extra")])          #  bootstrapped when a method exposing them is built)
+    nd = lambda n, t: A(n, t, default=False)  # noqa: E731
+    out = []
+    # the subclass re-declares attributes with a richer nested type and adds an attribute of its own
+    base = C("Base", attrs=[nd("child", "nested:Child"), nd("kids", "list:nested:Child"), A("x")])
+    sub = C("Sub", ["Base"], attrs=[nd("child", "nested:SubChild"), nd("kids", "list:nested:SubChild"), A("y")])
+    out.append([child, subchild, base, sub])
+    # three levels, a plain class in between, a default-only override, a hand-written helper, an immediate bootstrap
+    top = C("Top", attrs=[nd("child", "nested:Child"), nd("table", "dict:nested:Child"), A("x"), A("label", "str")])
+    plain = C("Plain", ["Top"], spec=False, overrides=["x"], hand=["with_label"])
+    mid = C("Mid", ["Plain"], lazy=False, attrs=[nd("table", "dict:nested:SubChild"), A("y")], hand=["update_x"])
+    leaf = C("Leaf", ["Mid"], attrs=[nd("child", "nested:SubChild"), nd("tags", "set:int")], overrides=["y"])
+    pleaf = C("PlainLeaf", ["Leaf"], spec=False)
+    out.append([lchild, lsubchild, top, plain, mid, leaf, pleaf])
+    # several bases; the subclass only adds an attribute / adds nothing at all
+    m1 = C("M1", attrs=[nd("child", "nested:Child"), A("p")])
+    m2 = C("M2", attrs=[nd("other", "nested:SubChild"), A("q")], overflow="rest")
+    both = C("Both", ["M1", "M2"], attrs=[A("r")])
+    same_ = C("Same", ["Both"], attrs=[])
+    out.append([lchild, subchild, m1, m2, both, same_])
+    return out
+
+
+REG_ATTR_POOL = [("child", "nested"), ("part", "nested"), ("kids", "list"), ("nodes", "list"), ("table", "dict"),
+                 ("tags", "set"), ("x", "int"), ("y", "int"), ("z", "int"), ("label", "str")]
+
+
+def random_reg_world(rng, i):
+    A, C = h_attr, r_class
+    types = [C(f"T{i}a", lazy=rng.random() < 0.5, attrs=[A("a"), A("b", "str")][: rng.randint(1, 2)])]
+    types.append(C(f"T{i}b", [types[0]["name"]], lazy=rng.random() < 0.5, attrs=[A("extra")]))
+    if rng.random() < 0.5:
+        types.append(C(f"T{i}c", lazy=rng.random() < 0.5, attrs=[A("c"), A("hid", init=False)], overflow=rng.choice([None, "rest"])))
+    tnames = [t["name"] for t in types]
+
+    def mk_type(shape):
+        if shape in ("int", "str"):
+            return shape
+        inner = rng.choice(["int"] + [f"nested:{t}" for t in tnames] * 2) if shape != "nested" else f"nested:{rng.choice(tnames)}"
+        return inner if shape == "nested" else f"{shape}:{inner}"
+
+    classes, declared = [], {}
+    depth = rng.randint(2, 4)
+    for lvl in range(depth):
+        spec = lvl == 0 or rng.random() < 0.75
+        name = f"W{i}L{lvl}"
+        bases = [classes[-1]["name"]] if classes else []
+        attrs, overrides, hand = [], [], []
+        if spec:
+            fresh = [p for p in REG_ATTR_POOL if p[0] not in declared]
+            for n, shape in rng.sample(fresh, min(len(fresh), rng.randint(0 if lvl else 2, 3))):
+                t = mk_type(shape)
+                attrs.append(A(n, t, True, t in ("int", "str") and rng.random() < 0.7))
+                declared[n] = shape
+            for n, shape in list(declared.items()):
+                if n not in [a["name"] for a in attrs] and lvl and rng.random() < 0.35:
+                    t = mk_type(shape)   # RE-declared here, possibly with another nested type
+                    attrs.append(A(n, t, True, t in ("int", "str") and rng.random() < 0.7))
+        scal = [n for n, shape in declared.items() if shape == "int" and n not in [a["name"] for a in attrs]]
+        if lvl and scal and rng.random() < 0.3:
+            overrides.append(rng.choice(scal))
+        if lvl and declared and rng.random() < 0.3:
+            n = rng.choice(sorted(declared))
+            hand.append(rng.choice([f"with_{n}", f"update_{n}", "update", "transform", f"reset_{n}"]))
+        classes.append(C(name, bases, spec, rng.random() < 0.7, attrs, overrides, hand))
+    if rng.random() < 0.3:
+        # a second spec base (mixin) for the last spec class
+        mix = C(f"W{i}Mix", lazy=rng.random() < 0.7, attrs=[A("mixed")])
+        tgt = next(c for c in reversed(classes) if c["spec"])
+        if tgt["bases"]:
+            tgt["bases"] = tgt["bases"] + [mix["name"]] if rng.random() < 0.5 else [mix["name"]] + tgt["bases"]
+            classes.insert(classes.index(tgt), mix)
+    return types + classes
+
+
+def reg_calls_for(case, cname, pattern, rng):
+    """calls made on the method found: each keyword the class's OWN configuration advertises, alone; a pair; and names
+    the configurations of the OTHER classes advertise for the same method name (unadvertised here)"""
+    own, foreign = [], []
+    for c in case["classes"]:
+        if not c["spec"]:
+            continue
+        for p, _kind, _kt, nt, _look in reg_methods(case, c["name"]):
+            if p != pattern or nt == "-":
+                continue
+            names = [x.split(":")[0] for x in nt.split(";")[1].split(",") if x.endswith(":1")]
+            (own if c["name"] == cname else foreign).extend(names)
+    own = list(dict.fromkeys(own))
+    foreign = [n for n in dict.fromkeys(foreign) if n not in own]
+    if not own and not foreign:
+        return []
+    calls = [[1, [n]] for n in own[:4]]
+    if len(own) >= 2:
+        calls.append([1, own[-2:]])
+    calls += [[1, [n]] for n in foreign[:3]]
+    calls.append([1, ["bogus"]])
+    return calls
+
+
+def reg_histories(classes, rng, tier):
+    """Event lists for a world: systematic orders (parents used first, children first, each class used before its
+    subclass is even defined, class-level lookups before any bootstrap, super() lookups) + random interleavings;
+    every history ends with a sweep: every name on an instance of every class."""
+    proto = {"kind": "reg", "classes": classes, "events": [], "origin": "reg"}
+    names = reg_universe(proto)
+    order = [c["name"] for c in classes]
+    spec = {c["name"]: c["spec"] for c in classes}
+    h = reg_h(proto)
+
+    def pick(k=None):
+        return names if k is None or len(names) <= k else rng.sample(names, k)
+
+    def acc(kind, c, n, with_calls=True):
+        calls = reg_calls_for(proto, c, n, rng) if (with_calls and kind != "get") else []
+        return [kind, c, n, calls]
+
+    def sweep(with_calls):
+        return [acc("iget", c, n, with_calls) for c in order for n in names]
+
+    defs = [["def", c] for c in order]
+    out = []
+    # 0: minimal histories — a method of the parent is used, then the same name on an instance of the subclass —
+    #    one per (subclass, ancestor, name) whose configurations differ (these come first: a small failing input)
+    cfg = {c["name"]: {m_[0]: m_ for m_ in reg_methods(proto, c["name"])} for c in classes if c["spec"]}
+    tiny = []
+    for c in order:
+        if not spec[c]:
+            continue
+        for k in h_mro(h, c)[1:]:
+            if spec[k]:
+                for n in names:
+                    if n in cfg[c] and n in cfg[k] and cfg[c][n][1:4] != cfg[k][n][1:4]:
+                        for first in ("iget", "get"):
+                            tiny.append((f"parent-{first}-then-child", defs[: order.index(c)] + [acc(first, k, n, False)]
+                                         + [["def", x] for x in order[order.index(c):]] + [acc("iget", c, n)]))
+                break
+    if tier == "quick" and len(tiny) > 10:
+        tiny = rng.sample(tiny, 10)
+    out += tiny
+    ntiny = len(tiny)
+    # A: everything defined (lazily), parents used first
+    out.append(("parents-first", defs + sweep(True)))
+    # B: children first
+    out.append(("children-first", defs + [acc("iget", c, n, False) for c in reversed(order) for n in names] + sweep(False)))
+    # C: each class is fully used (instance lookups) before the next class statement runs
+    evs = []
+    for c in order:
+        evs.append(["def", c])
+        evs += [acc("iget", c, n, False) for n in names]
+    out.append(("used-before-subclass-defined", evs + sweep(True)))
+    # C': the same with class-level lookups only (nothing is bootstrapped by them)
+    evs = []
+    for c in order:
+        evs.append(["def", c])
+        evs += [acc("get", c, n) for n in names]
+    out.append(("class-lookups-before-subclass-defined", evs + sweep(False)))
+    # D: class-level lookups bottom-up before any bootstrap, then bootstraps top-down
+    shuffled = rng.sample(names, len(names))   # (which method is BUILT first decides which one bootstraps a lazy nested type)
+    out.append(("class-lookups-then-bootstrap",
+                defs + [acc("get", c, n) for c in reversed(order) for n in shuffled] + [["boot", c] for c in order] + sweep(False)))
+    # E: super() lookups from every class through every ancestor
+    evs = list(defs)
+    for c in reversed(order):
+        for k in h_mro(h, c)[:-1]:
+            evs += [["sget", c, k, n, []] for n in pick(12)]
+    out.append(("super-lookups", evs + sweep(False)))
+    # F: random interleavings (class statements at random moments)
+    for _ in range(2 if tier != "thorough" else 6):
+        evs, defined = [], []
+        pending = list(order)
+        while pending or rng.random() < 0.9 and len(evs) < 60:
+            if pending and (not defined or rng.random() < 0.25):
+                defined.append(pending.pop(0))
+                evs.append(["def", defined[-1]])
+                continue
+            c = rng.choice(defined)
+            r = rng.random()
+            n = rng.choice(names)
+            if r < 0.15:
+                evs.append(["boot", c])
+            elif r < 0.45:
+                evs.append(acc("get", c, n))
+            elif r < 0.85:
+                evs.append(acc("iget", c, n, rng.random() < 0.3))
+            else:
+                ks = h_mro(h, c)[:-1]
+                if ks:
+                    evs.append(["sget", c, rng.choice(ks), n, []])
+        out.append(("random", evs + sweep(False)))
+    cases = [{"kind": "reg", "classes": classes, "events": evs, "origin": "reg", "history": label} for label, evs in out]
+    if tier == "quick-sample":
+        # (random worlds of the quick tier: three minimal histories, the use-before-definition order, and two others)
+        big = cases[ntiny:]
+        return rng.sample(cases[:ntiny], min(3, ntiny)) + [big[2]] + rng.sample(big[:2] + big[3:], 2)
+    return cases
+
+
+# ---------------------------------------------------------------------------
 # generation
 # ---------------------------------------------------------------------------
 
@@ -2287,6 +2990,8 @@ def gen_cases(tier, rng):
                 yield c
             if i % 3 == 0:
                 yield from hier_cases(random_hier(rng, 1000 + i), rng, "quick")
+            if i % 2 == 0:
+                yield from reg_histories(random_reg_world(rng, 1000 + i), rng, "quick-sample")
             for _ in range(20):
                 yield random_builder_case(rng)
         return
@@ -2311,6 +3016,10 @@ def gen_cases(tier, rng):
         build_hier(h)
     for h in hiers:
         yield from hier_cases(h, rng, tier)
+    for w in fixed_reg_worlds():
+        yield from reg_histories(w, rng, tier)
+    for i in range(4 if tier == "quick" else 60):
+        yield from reg_histories(random_reg_world(rng, i), rng, "quick-sample" if tier == "quick" else tier)
     for _ in range(600 if tier == "quick" else 20000):
         yield random_builder_case(rng)
     for _ in range(600 if tier == "quick" else 20000):
@@ -2325,7 +3034,34 @@ def extra(tier, rng):
 CASE_OFFSET = {"bind": 1, "method": 2, "builder": 2, "hinit": 3, "hupd": 4}
 
 
+def reg_shrink(case, at=None):
+    evs = case["events"]
+    if at is not None:
+        # the events up to (and including) the one whose line differs
+        n, upto = 2 + len(case["classes"]), len(evs)
+        for i, ev in enumerate(evs):
+            n += 1 + (len(ev[-1]) if isinstance(ev[-1], list) else 0)
+            if n > at:
+                upto = i + 1
+                break
+        evs = evs[:upto]
+        yield {**case, "events": evs}
+    last = evs[-1:] if evs else []
+    body = evs[:-1]
+    # drop every lookup before the last event except those on one class / of one name
+    if last and last[0][0] in ("get", "iget", "sget"):
+        name = last[0][3] if last[0][0] == "sget" else last[0][2]
+        keep = [e for e in body if e[0] in ("def", "boot") or (e[3] if e[0] == "sget" else e[2]) == name]
+        yield {**case, "events": keep + last}
+        for i, e in enumerate(keep):
+            if e[0] != "def":
+                yield {**case, "events": keep[:i] + keep[i + 1:] + last}
+
+
 def shrink(case, at=None):
+    if case["kind"] == "reg":
+        yield from reg_shrink(case, at)
+        return
     calls = case.get("calls", [])
     off = CASE_OFFSET[case["kind"]]
     if at is not None and at >= off and at - off < len(calls):
@@ -2337,6 +3073,17 @@ def shrink(case, at=None):
 def nontrivial(case, real):
     keys = []
     head = real[0] if real else ""
+    if case["kind"] == "reg":
+        # distinct = (what was found where, for which class, signature) per kind of lookup, and every call outcome
+        for line in real[2 + len(case["classes"]):]:
+            if " ;; get " in line:
+                g = line.split(" ;; get ")[1]
+                head = g
+                if "was=desc" in g or "for=" in g and g.split("p=")[1].split(" ")[0] != g.split("for=")[1].split(" ")[0]:
+                    keys.append(("reg", g))
+            elif line.startswith("err") or "k." in line:
+                keys.append(("reg-call", head.split(" ;; adv ")[-1], line.split(" ;; ")[0][:40]))
+        return keys
     off = CASE_OFFSET[case["kind"]]
     if case["kind"] in ("hinit", "hupd"):
         head = real[2] if len(real) > 2 else ""
@@ -2352,6 +3099,21 @@ def nontrivial(case, real):
 
 def tags(case, real):
     t = [f"kind:{case['kind']}", f"origin:{case.get('origin', 'corpus')}"]
+    if case["kind"] == "reg":
+        t.append(f"reg-history:{case.get('history', '?')}")
+        t.append(f"reg-classes:{len(case['classes'])}")
+        for line in real[2 + len(case["classes"]):]:
+            if " ;; get " in line:
+                g = line.split(" ;; get ")[1].split(" ")
+                prov, was, owner = g[0][2:], g[1][4:], g[2][4:]
+                t.append(f"reg-lookup:{was}")
+            elif line.endswith("err AttributeError"):
+                t.append("reg-lookup:AttributeError")
+            elif line.startswith("ok "):
+                t.append("calls-accepted:reg")
+            elif line.startswith("err "):
+                t.append("calls-rejected:reg")
+        return t
     if case["kind"] == "method":
         t.append(f"method:{case['mkind']}")
         t.append("nested:" + ("none" if case["nested"] is None else ("overflow" if case["nested"].get("overflow") else "plain")))
@@ -2377,7 +3139,7 @@ def tags(case, real):
 
 
 MANIFEST_ENTRY = {
-    "level_text": "Lean 4 proof, for every MethodBuilder state reachable by any with_arg sequence and every call, that the synthesised wrapper accepts a call iff Python binding against the advertised signature does, forwards to the implementation exactly the values bound to each advertised parameter (shown defaults for compiled parameters, nothing for unpassed nested keywords), rejects any keyword outside the signature with TypeError before the implementation is entered, that with_spec_attrs_for yields one virtual keyword per init-enabled attribute of the nested class minus own parameters and the overflow attribute, and that the build-time compatibility check implies the forwarded call binds to the implementation; the with_arg recipe of each of the 20 generated method kinds is part of the model and proved to satisfy the hypotheses. Tied to /repo on every run: for every generated method of a generated class family the advertised signature, the compiled code object's parameters and the implementation's signature are compared with the model, and every single advertised parameter, every pair, positional overflow and unadvertised names are called on the real method with a spy in place of the implementation and on the model; random with_arg sequences on the real MethodBuilder and random signatures against inspect.Signature.bind and real defs tie the builder and the binding fragment. Beyond the wrapper, the two implementations that receive the class's own attribute keywords are modelled and proved: UpdateMethod.update with the mutate_value fragment it uses (every attribute keyword with a plain value is what the result holds, with or without a replacement _new_value, in place or not; untouched attributes come from the replacement / the receiver; _if=False is a no-op; edits go to a copy unless in place) and InitMethod.init with the delegation to the constructors of all spec-class ancestors (for every well-formed hierarchy of any depth, with plain classes in between and several bases: the constructor does not fail, every keyword of an init-enabled attribute is what the instance holds whoever owns the attribute, unpassed attributes hold their default, the overflow attribute collects exactly the other keywords), composed with forwards_bound into statements about the caller's call; tied on every run on generated hierarchies (metadata, MRO, owners, parent constructor signatures read off the real classes vs derived from the description; resulting attribute dictionaries, identity of the result, receiver and replacement afterwards).",
+    "level_text": "Lean 4 proof, for every MethodBuilder state reachable by any with_arg sequence and every call, that the synthesised wrapper accepts a call iff Python binding against the advertised signature does, forwards to the implementation exactly the values bound to each advertised parameter (shown defaults for compiled parameters, nothing for unpassed nested keywords), rejects any keyword outside the signature with TypeError before the implementation is entered, that with_spec_attrs_for yields one virtual keyword per init-enabled attribute of the nested class minus own parameters and the overflow attribute, and that the build-time compatibility check implies the forwarded call binds to the implementation; the with_arg recipe of each of the 20 generated method kinds is part of the model and proved to satisfy the hypotheses. Tied to /repo on every run: for every generated method of a generated class family the advertised signature, the compiled code object's parameters and the implementation's signature are compared with the model, and every single advertised parameter, every pair, positional overflow and unadvertised names are called on the real method with a spy in place of the implementation and on the model; random with_arg sequences on the real MethodBuilder and random signatures against inspect.Signature.bind and real defs tie the builder and the binding fragment. Beyond the wrapper, the two implementations that receive the class's own attribute keywords are modelled and proved: UpdateMethod.update with the mutate_value fragment it uses (every attribute keyword with a plain value is what the result holds, with or without a replacement _new_value, in place or not; untouched attributes come from the replacement / the receiver; _if=False is a no-op; edits go to a copy unless in place) and InitMethod.init with the delegation to the constructors of all spec-class ancestors (for every well-formed hierarchy of any depth, with plain classes in between and several bases: the constructor does not fail, every keyword of an init-enabled attribute is what the instance holds whoever owns the attribute, unpassed attributes hold their default, the overflow attribute collects exactly the other keywords), composed with forwards_bound into statements about the caller's call; tied on every run on generated hierarchies (metadata, MRO, owners, parent constructor signatures read off the real classes vs derived from the description; resulting attribute dictionaries, identity of the result, receiver and replacement afterwards). WHICH method a name resolves to is modelled and proved as well (Model/C17Reg.lean): immediate or lazy bootstrap with the parents' spec classes first, register_method (only the class's own __dict__ decides), MethodDescriptors dissolving on the class they were attached to, the build of a method bootstrapping the lazily decorated nested type it exposes, lookups on classes, instances and through super(), hand-written methods — for every world of classes and every history of class statements, bootstraps and lookups in any order: a generated entry always sits on the class it was generated for, what a lookup finds depends only on which classes exist / are bootstrapped and not on the order of events, a bootstrapped class resolves every name its bootstrap generates to ITS OWN method (so the nested keywords are those of the attribute type as declared for that class; composed with the per-method theorems), hand-written methods win; tied on every run on generated worlds and histories (provider class, descriptor/function/hand-written, class the method was built for read off the function, set of bootstrapped classes, advertised signature, calls with a spying implementation).",
     "level_note": "Trusted: Lean kernel; axioms propext/Classical.choice/Quot.sound only; the hand-written model incl. pyBind as the semantics of Python argument binding (tested each run against inspect.Signature.bind and real functions); the harness. Hypotheses of the acceptance/forwarding theorems: virtual keyword-only arguments carry a default (true of everything with_spec_attrs_for adds), no parameter is called like the two PRIVATE globals of the generated text (_spec_classes_implementation/_spec_classes_validate_attrs; no managed attribute can be), the key attribute is not called self/kwargs (outside well-formedness: the constructor cannot be built, loud ValueError), no *args parameter for the implementation-compatibility theorem. Nested-keyword defaults are documentation, not injected (DESIGN section 10 item 9).",
     "technique": "Lean 4 proof over a model of MethodBuilder + Python argument binding; differential correspondence on every generated method with a spying implementation",
 }
